@@ -395,18 +395,14 @@ theorem levenshtein_icase_eq (a b : Bytes) : levenshteinIcase a b = Spec.lev ica
 example : Spec.lev (· == ·) [107, 105, 116, 116, 101, 110] [115, 105, 116, 116, 105, 110, 103] = 3 := by
   rw [← levenshtein_eq]; decide
 
-/-- the textbook *head* recursion (compare first characters, recurse on tails) -/
-def levFront (eq : UInt8 → UInt8 → Bool) : Bytes → Bytes → Nat
-  | [], b => b.length
-  | a, [] => a.length
-  | x :: a, y :: b =>
-    min (min (levFront eq a (y :: b) + 1) (levFront eq (x :: a) b + 1))
-      (levFront eq a b + (if eq x y then 0 else 1))
-termination_by a b => a.length + b.length
+/-- the recurrence over prefix lengths and the textbook *head* recursion (`Spec.levFront`: compare
+the first characters, recurse on the tails) define the same distance -/
+theorem lev_front (eq : UInt8 → UInt8 → Bool) (a b : Bytes) : Spec.lev eq a b = Spec.levFront eq a b :=
+  lev_eq_levFront eq a b
 
-/-- the recurrence over prefix lengths and the head recursion define the same distance -/
-def lev_front_statement : Prop := ∀ (eq : UInt8 → UInt8 → Bool) (a b : Bytes), Spec.lev eq a b = levFront eq a b
--- OPEN: lev_front_statement — reversal invariance of the edit distance (prefix recurrence = head recursion) is not proved; the proved theorems relate the code to the prefix recurrence `Spec.levD`, which the Python oracle (full matrix) also implements
+/-- hence the code computes the head-recursive edit distance -/
+theorem levenshtein_eq_front (a b : Bytes) : levenshtein a b = Spec.levFront (· == ·) a b := by
+  rw [levenshtein_eq, lev_front]
 
 /-! ## erase_all in place -/
 
